@@ -135,7 +135,7 @@ def r19_2(ctx: Ctx):
 
 def _starts_at_first(f: FuncInfo) -> bool:
     """A for loop over the container itself starts at the first item (iterator protocol: R19.4)."""
-    fors = [nn for nn in ast.walk(f.node) if isinstance(nn, ast.For)]
+    fors = [nn for nn in ast.walk(f.node) if isinstance(nn, (ast.For, ast.comprehension))]
     return any(isinstance(nn.iter, ast.Name) and nn.iter.id == f.param_names[0] for nn in fors)
 
 
